@@ -4,7 +4,7 @@ From Klog Require Import Base.Prelude Base.Utf8 Model.Calendar Model.Values Mode
   Model.Tags Model.Serialiser Model.Reconcile Model.Commands Proofs.Lines Proofs.Parser Proofs.TagsUtf8 Proofs.Calendar
   Proofs.Values Spec.Spec Proofs.SpecValues Proofs.SpecEntry Proofs.SpecRecord Proofs.SpecDoc Proofs.Print
   Proofs.Style Proofs.Reconcile Proofs.Commands Proofs.Rounding Proofs.CommandsSpec Proofs.CommandsRefine Proofs.CommandsStop
-  Proofs.CommandsPause.
+  Proofs.CommandsPause Proofs.CommandsArgs Proofs.CommandsTags.
 From Coq Require Import ZifyBool.
 Open Scope Z_scope.
 
@@ -33,7 +33,7 @@ Definition a_track (cfg : config) (d : date) (fmt : reformat bool) (e : entry) (
   match find_record_idx (dt d) rs 0 with
   | Some i =>
     match nth_error rs i with
-    | Some r => if is_open e && existsb is_open (rec_entries r) then CErr CEManipulation else COk (a_add_entry cfg d fmt e rs)
+    | Some r => if is_open e && existsb is_open (rec_entries r) then CErr CEInvalidResult else COk (a_add_entry cfg d fmt e rs)
     | None => CCrash
     end
   | None => COk (a_add_entry cfg d fmt e rs)
@@ -73,30 +73,35 @@ Definition lines_arg_ok (sr : list text) : Prop :=
   match sr with [] => True | s0r :: mr => text_ok s0r = true /\ forallb (fun t => text_ok t && negb (all_blank t)) mr = true end /\
   no_cr_lines (map utf8_encode sr).
 
+(* the given --summary text is made of specification summary lines *)
+Definition sum_arg_ok (s : sum_args) : Prop := match s_text s with Some text => summary_ok text | None => True end.
+
+(* no summary line of an entry of the file ends in a carriage return (`--resume` would copy it before a bare LF) *)
+Definition file_no_cr (recs : srecs) : Prop :=
+  forall rg se, In rg recs -> In se (sr_entries (fst rg)) -> no_cr_lines (e_summary (denote_entry se)).
+
 Definition step_pre (now : Commands.clock) (cfg : config) (sc : scommand) (recs : srecs) : Prop :=
   match sc with
   | STrack ds se =>
-    (forall d, at_date now ds = Ok d -> valid_cdate (dt d) = true) /\ should_fits (cfg_should cfg) /\
-    wf_entry se = true /\ no_cr_lines (entry_arg se)
+    datesel_ok now ds /\ should_fits (cfg_should cfg) /\ wf_entry se = true /\ no_cr_lines (entry_arg se)
   | SStart a s =>
-    (forall d, at_date now (a_date a) = Ok d -> valid_cdate (dt d) = true) /\ should_fits (cfg_should cfg) /\
-    (forall t, at_time now cfg a = COk t -> valid_time t) /\ summaries_ok s (denote_recs recs)
+    datesel_ok now (a_date a) /\ should_fits (cfg_should cfg) /\ time_arg_ok a /\ sum_arg_ok s /\ file_no_cr recs
   | SStop a add_r =>
-    (forall d, at_date now (a_date a) = Ok d -> valid_cdate (dt d) = true) /\
-    (forall t, at_time now cfg a = COk t -> valid_time t) /\
+    datesel_ok now (a_date a) /\ time_arg_ok a /\
     add_ok (match add_r with Some l => l | None => [] end) /\
     (forall rg, In rg recs -> open_entry_ok (fst rg))
   | SSwitch a s =>
-    (forall t, at_time now cfg a = COk t -> valid_time t) /\
-    (forall rg, In rg recs -> open_entry_ok (fst rg)) /\
-    (forall current summary, resolve_summary s current None = COk summary -> summary_ok summary)
+    time_arg_ok a /\ (forall rg, In rg recs -> open_entry_ok (fst rg)) /\ sum_arg_ok s /\ file_no_cr recs
   | SCreate ds should srunes =>
-    (forall d, at_date now ds = Ok d -> valid_cdate (dt d) = true) /\
+    datesel_ok now ds /\
     should_fits (match should with Some m => Some m | None => cfg_should cfg end) /\
     forallb summary_line_ok srunes = true /\ no_cr_lines (map utf8_encode srunes)
   | SPause sr no_tags extend ticks =>
-    lines_arg_ok (match sr with Some l => l | None => [] end) /\ tags_ok recs
+    lines_arg_ok (match sr with Some l => l | None => [] end)
   end.
+
+Lemma spec_state_wf file recs : spec_state file recs -> forallb (fun rg => wf_record (fst rg)) recs = true.
+Proof. intros (lead & gs & C & _). exact (cf_wf _ _ _ _ C). Qed.
 
 (* ---------------------------------------------------------------- one command *)
 
@@ -118,7 +123,7 @@ Proof.
   intros S Hpre Ha. destruct sc as [ds se|a s|a add_r|a s|ds should srunes|sr no_tags extend ticks]; cbn [a_exec to_command step_pre] in *.
   - (* track *)
     destruct Hpre as (Hv & Hsh & We & Hcr).
-    apply cbind_ok in Ha as (d & Hd & Ha). apply of_outcome_cok in Hd. specialize (Hv d Hd).
+    apply cbind_ok in Ha as (d & Hd & Ha). apply of_outcome_cok in Hd. pose proof (at_date_valid now ds d Hv Hd) as Hv'. clear Hv. rename Hv' into Hv.
     assert (Hok : a_add_entry_ok d (denote_entry se) (denote_recs recs) /\ rs' = a_add_entry cfg d (date_format cfg ds) (denote_entry se) (denote_recs recs)).
     { unfold a_track in Ha. unfold a_add_entry_ok. destruct (find_record_idx (dt d) (denote_recs recs) 0) as [i|]; [|split; [exact I|congruence]].
       destruct (nth_error (denote_recs recs) i) as [r|]; [|discriminate].
@@ -128,30 +133,32 @@ Proof.
     destruct (track_refines now cfg ds file recs d se S Hd Hv Hsh We Hcr Hok) as (file' & recs' & He & S' & Hden & P').
     exists file', recs'. split; [apply exec_of_simple; [reflexivity|exact He]|]. auto.
   - (* start *)
-    destruct Hpre as (Hv & Hsh & Hvt & Hsum).
+    destruct Hpre as (Hv & Hsh & Hvt & Hsa & Hncr).
     apply cbind_ok in Ha as (d & Hd & Ha). apply of_outcome_cok in Hd. apply cbind_ok in Ha as (t & Ht & Ha).
-    destruct (start_refines now cfg a s file recs d t rs' S Hd Ht (Hvt t Ht) (Hv d Hd) Hsh Hsum Ha) as (file' & recs' & He & S' & Hden & P').
+    destruct (start_refines now cfg a s file recs d t rs' S Hd Ht (at_time_valid now cfg a t Hvt Ht) (at_date_valid now _ d Hv Hd) Hsh
+                (summaries_ok_of s recs (spec_state_wf _ _ S) Hsa Hncr) Ha) as (file' & recs' & He & S' & Hden & P').
     exists file', recs'. split; [apply exec_of_simple; [reflexivity|exact He]|]. auto.
   - (* stop *)
     destruct Hpre as (Hv & Hvt & Hadd & Hnb).
     apply cbind_ok in Ha as (d & Hd & Ha). apply of_outcome_cok in Hd. apply cbind_ok in Ha as (t & Ht & Ha).
     apply cbind_ok in Ha as (y & Hy & Ha). apply of_outcome_cok in Hy.
     destruct (stop_refines now cfg a (option_map (map utf8_encode) add_r) (match add_r with Some l => l | None => [] end) file recs d t y rs'
-                S Hd Ht (Hvt t Ht) Hy (Hv d Hd)) as (file' & recs' & He & S' & Hden & P'); try assumption.
+                S Hd Ht (at_time_valid now cfg a t Hvt Ht) Hy (at_date_valid now _ d Hv Hd)) as (file' & recs' & He & S' & Hden & P'); try assumption.
     { destruct add_r; reflexivity. }
     exists file', recs'. split; [apply exec_of_simple; [reflexivity|exact He]|]. auto.
   - (* switch *)
-    destruct Hpre as (Hvt & Hnb & Hsum).
+    destruct Hpre as (Hvt & Hnb & Hsa & Hncr).
     apply cbind_ok in Ha as (d & Hd & Ha). apply of_outcome_cok in Hd. apply cbind_ok in Ha as (t & Ht & Ha).
-    destruct (switch_refines now cfg a s file recs d t rs' S Hd Ht (Hvt t Ht) Hnb Hsum Ha) as (file' & recs' & He & S' & Hden & P').
+    destruct (switch_refines now cfg a s file recs d t rs' S Hd Ht (at_time_valid now cfg a t Hvt Ht) Hnb
+                (summaries_ok_of s recs (spec_state_wf _ _ S) Hsa Hncr) Ha) as (file' & recs' & He & S' & Hden & P').
     exists file', recs'. split; [apply exec_of_simple; [reflexivity|exact He]|]. auto.
   - (* create *)
     destruct Hpre as (Hv & Hsh & Hsum & Hcr).
     apply cbind_ok in Ha as (d & Hd & Ha). apply of_outcome_cok in Hd. injection Ha as <-.
-    destruct (create_refines now cfg ds should srunes file recs d S Hd (Hv d Hd) Hsh Hsum Hcr) as (file' & recs' & He & S' & Hden & P').
+    destruct (create_refines now cfg ds should srunes file recs d S Hd (at_date_valid now ds d Hv Hd) Hsh Hsum Hcr) as (file' & recs' & He & S' & Hden & P').
     exists file', recs'. split; [apply exec_of_simple; [reflexivity|exact He]|]. auto.
   - (* pause *)
-    destruct Hpre as ((Hsr & Hcr) & Htags).
+    destruct Hpre as (Hsr & Hcr). pose proof (tags_ok_conforming recs (spec_state_wf _ _ S)) as Htags.
     apply cbind_ok in Ha as (y & Hy & Ha). apply of_outcome_cok in Hy.
     destruct (pause_refines now cfg (option_map (map utf8_encode) sr) (match sr with Some l => l | None => [] end) no_tags extend ticks file recs y rs'
                 S Hy) as (file' & recs' & He & S' & Hden & P'); try assumption.
